@@ -474,11 +474,17 @@ func (ps *PathSum) callStatic(s *psState, f *psFrame, x ssa.Instruction, callee 
 		}
 		return nil
 	case pkg == "sync/atomic":
+		res := ""
 		if o.Signature.Results().Len() > 0 {
-			bind(ps.sym("atomic:" + o.Name() + "#"))
+			res = ps.sym("atomic:" + o.Name() + "#")
+			bind(res)
 		}
 		if o.Name() != "Load" {
 			ps.emit(s, f, pos, "Atomic", append([]string{o.Name()}, args...)...)
+			s.trace[len(s.trace)-1].Res = res
+		} else if ps.trackLoads {
+			ps.emit(s, f, pos, "AtomicLoad", args...)
+			s.trace[len(s.trace)-1].Res = res
 		}
 		return nil
 	case pkg == "errors" && o.Name() == "Is" && len(args) == 2 && (strings.Contains(args[1], "ErrNotFound") || args[1] == ps.errNotFoundTerm()):
